@@ -179,8 +179,8 @@ theorem shared_entry_same_cost (objs : List GObject) (hw : WellNamed objs) (root
   simp only [Spec.boundCustom, entryOf_of_bound objs hw t f e hf, entryOf_of_bound objs hw t g e hg]
 
 def demoObjs : List GObject :=
-  [⟨"Query", false, [⟨"report", "Report", false⟩, ⟨"__schema", "introspectSchema", true⟩]⟩,
-   ⟨"Report", false, [⟨"total", "Total", false⟩, ⟨"sum", "Total", false⟩, ⟨"cheap", "Cheap", false⟩]⟩]
+  [⟨"Query", false, [⟨"report", "Report", false⟩, ⟨"__schema", "introspectSchema", true⟩], ["Root"]⟩,
+   ⟨"Report", false, [⟨"total", "Total", false⟩, ⟨"sum", "Total", false⟩, ⟨"cheap", "Cheap", false⟩], []⟩]
 
 example : WellNamed demoObjs := by
   unfold WellNamed demoObjs
